@@ -69,114 +69,5 @@ pub open spec fn adc_fields(p: AdcV3Packet, s: Seq<u8>) -> bool {
 // invariant used by event assembly (C09): a packet with samples knows its board
 pub open spec fn wf_adc(p: AdcV3Packet) -> bool { p.waveform@.len() > 0 ==> p.board_id.is_some() }
 
-// ---- re-encoding (C02): the accessor values of an accepted packet reproduce its bytes, apart from the two unused footer bits
-pub open spec fn b16(v: int) -> Seq<u8> { seq![((v / 256) % 256) as u8, (v % 256) as u8] }                       // big endian, v taken modulo 2^16
-pub open spec fn b32(v: int) -> Seq<u8> { b16((v / 65536) % 65536) + b16(v % 65536) }
-pub open spec fn u16_of(v: int) -> int { if v < 0 { v + 65536 } else { v } }
-pub open spec fn u32_of(v: int) -> int { if v < 0 { v + 0x1_0000_0000 } else { v } }
-pub open spec fn enc_wave(w: Seq<i16>) -> Seq<u8>
-    decreases w.len()
-{
-    if w.len() == 0 { Seq::empty() } else { enc_wave(w.drop_last()) + b16(u16_of(w.last() as int)) }
-}
-pub open spec fn chan_byte(c: ChannelId) -> int { match c { ChannelId::A16(x) => x.0 as int, ChannelId::A32(x) => x.0 as int + 128 } }
-pub open spec fn footer_of(p: AdcV3Packet) -> int { p.keep_last as int + (if p.keep_bit { 4096int } else { 0 }) + (if p.suppression_enabled { 8192int } else { 0 }) }
-pub open spec fn encode_adc(p: AdcV3Packet) -> Seq<u8> {
-    let head = seq![1u8, 3u8] + b16(p.accepted_trigger as int) + seq![p.module_id.0, chan_byte(p.channel_id) as u8] + b16(p.requested_samples as int)
-        + b32((p.event_timestamp as int) % 0x1_0000_0000);
-    let tail = b16(footer_of(p)) + b16(u16_of(p.suppression_baseline as int));
-    if p.board_id is None { head + tail } else {
-        head + seq![0u8, 0u8] + p.board_id->Some_0.mac_address@ + b32((p.event_timestamp as int) / 0x1_0000_0000)
-            + b32(u32_of(p.trigger_offset->Some_0 as int)) + b32(p.build_timestamp->Some_0 as int) + enc_wave(p.waveform@) + tail
-    }
-}
-// the input with footer bits 14 and 15 cleared (they are not represented in the decoded packet)
-pub open spec fn clear_unused(s: Seq<u8>) -> Seq<u8> { s.update(s.len() - 4, (s[s.len() - 4] % 64) as u8) }
-
-proof fn lemma_b16(s: Seq<u8>, o: int)
-    requires 0 <= o, o + 2 <= s.len()
-    ensures b16(be16(s, o)) == s.subrange(o, o + 2)
-{
-    assert(b16(be16(s, o)) =~= s.subrange(o, o + 2));
-}
-proof fn lemma_b16_signed(s: Seq<u8>, o: int)
-    requires 0 <= o, o + 2 <= s.len()
-    ensures b16(u16_of(bei16(s, o))) == s.subrange(o, o + 2)
-{
-    assert(u16_of(bei16(s, o)) == be16(s, o));
-    lemma_b16(s, o);
-}
-proof fn lemma_b32(s: Seq<u8>, o: int)
-    requires 0 <= o, o + 4 <= s.len()
-    ensures b32(be32(s, o)) == s.subrange(o, o + 4)
-{
-    lemma_b16(s, o);
-    lemma_b16(s, o + 2);
-    assert((be32(s, o) / 65536) % 65536 == be16(s, o));
-    assert(be32(s, o) % 65536 == be16(s, o + 2));
-    assert(s.subrange(o, o + 4) =~= s.subrange(o, o + 2) + s.subrange(o + 2, o + 4));
-}
-proof fn lemma_enc_wave(s: Seq<u8>, w: Seq<i16>, n: int)
-    requires 0 <= n == w.len(), 32 + 2 * n <= s.len(), forall|i: int| 0 <= i < n ==> w[i] as int == bei16(s, 32 + 2 * i)
-    ensures enc_wave(w) == s.subrange(32, 32 + 2 * n)
-    decreases n
-{
-    if n == 0 {
-        assert(s.subrange(32, 32) =~= Seq::<u8>::empty());
-    } else {
-        lemma_enc_wave(s, w.drop_last(), n - 1);
-        lemma_b16_signed(s, 32 + 2 * (n - 1));
-        assert(s.subrange(32, 32 + 2 * n) =~= s.subrange(32, 32 + 2 * (n - 1)) + s.subrange(32 + 2 * (n - 1), 32 + 2 * n));
-    }
-}
-proof fn lemma_adc_footer(p: AdcV3Packet, s: Seq<u8>)
-    requires s.len() >= 16, p.keep_last as int == keep_last(s), p.keep_bit == keep_bit(s), p.suppression_enabled == supp(s)
-    ensures b16(footer_of(p)) == seq![(s[s.len() - 4] % 64) as u8, s[s.len() - 3]]
-{
-    let n = s.len() as int;
-    let f = footer(s);
-    assert((f & 0xFFF) as int + (if (f >> 12) & 1 == 1 { 4096int } else { 0 }) + (if (f >> 13) & 1 == 1 { 8192int } else { 0 }) == (f % 16384) as int) by (bit_vector);
-    assert(footer_of(p) == be16(s, n - 4) % 16384);
-    assert(b16(footer_of(p)) =~= seq![(s[n - 4] % 64) as u8, s[n - 3]]);
-}
-proof fn lemma_adc_head(p: AdcV3Packet, s: Seq<u8>)
-    requires s.len() >= 16, s[0] == 1, s[1] == 3, p.accepted_trigger as int == be16(s, 2), p.module_id.0 == s[4], chan_byte(p.channel_id) == s[5],
-             p.requested_samples as int == be16(s, 6), (p.event_timestamp as int) % 0x1_0000_0000 == be32(s, 8)
-    ensures seq![1u8, 3u8] + b16(p.accepted_trigger as int) + seq![p.module_id.0, chan_byte(p.channel_id) as u8] + b16(p.requested_samples as int)
-        + b32((p.event_timestamp as int) % 0x1_0000_0000) == s.subrange(0, 12)
-{
-    lemma_b16(s, 2); lemma_b16(s, 6); lemma_b32(s, 8);
-    assert(seq![1u8, 3u8] + s.subrange(2, 4) + seq![s[4], s[5]] + s.subrange(6, 8) + s.subrange(8, 12) =~= s.subrange(0, 12));
-}
-#[verifier::rlimit(60)]
-pub proof fn lemma_adc_reencode(p: AdcV3Packet, s: Seq<u8>)
-    requires adc_ok(s), adc_fields(p, s)
-    ensures encode_adc(p) == clear_unused(s)
-{
-    let n = s.len() as int;
-    let t = clear_unused(s);
-    lemma_adc_footer(p, s);
-    lemma_b16_signed(s, n - 2);
-    let tail = b16(footer_of(p)) + b16(u16_of(p.suppression_baseline as int));
-    assert(tail =~= t.subrange(n - 4, n));
-    assert(chan_byte(p.channel_id) == s[5]);
-    if n == 16 {
-        assert((p.event_timestamp as int) % 0x1_0000_0000 == be32(s, 8));
-        lemma_adc_head(p, s);
-        assert(t =~= s.subrange(0, 12) + t.subrange(12, 16));
-    } else {
-        assert((p.event_timestamp as int) % 0x1_0000_0000 == be32(s, 8));
-        assert((p.event_timestamp as int) / 0x1_0000_0000 == be32(s, 20));
-        lemma_adc_head(p, s);
-        lemma_b32(s, 20); lemma_b32(s, 28);
-        assert(u32_of(bei32(s, 24)) == be32(s, 24));
-        lemma_b32(s, 24);
-        let w = p.waveform@;
-        lemma_enc_wave(s, w, w.len() as int);
-        assert(32 + 2 * w.len() == n - 4);
-        assert(t =~= s.subrange(0, 12) + seq![0u8, 0u8] + s.subrange(14, 20) + s.subrange(20, 24) + s.subrange(24, 28) + s.subrange(28, 32)
-            + s.subrange(32, n - 4) + t.subrange(n - 4, n));
-    }
-}
 // ... and its channel id is in range (needed by the wire map look-up of event assembly, C10)
 pub open spec fn chan_wf(c: ChannelId) -> bool { match c { ChannelId::A16(x) => x.0 <= 15, ChannelId::A32(x) => x.0 <= 31 } }
